@@ -424,7 +424,7 @@ class Unit:
                 body = apply_rewrites(it, body, rewrites_log)
                 emit(['// ---- %s %s  <- %s:%d (R9: attributes/doc comments/visibility stripped)' % (it.attrs.get('kw', 'struct'), it.attrs['name'], real['file'], real['line'])], kind='marker')
                 emit(it.contract, kind='unit', unit_line=it.lineno)
-                emit(('pub %s %s ' % (it.attrs.get('kw', 'struct'), it.attrs['name']) + body).split('\n'), kind='struct', real_file=real['file'], real_line=real['line'])
+                emit(('pub %s %s%s ' % (it.attrs.get('kw', 'struct'), it.attrs['name'], it.attrs.get('generics', '')) + body).split('\n'), kind='struct', real_file=real['file'], real_line=real['line'])
             else:
                 it = payload
                 if it.mode == 'macro':
